@@ -39,7 +39,8 @@ func ManageCanaryDeployment(client client.Client, daemonset *v1alpha1.ExtendedDa
 		result.Result = requeuePromptly()
 	}
 
-	return result, nil
+	// a failed clean-up delete is reported (and recorded in the ReconcileError condition) like in the active role
+	return result, err
 }
 
 // manageCanaryStatus manages ReplicaSet status in Canary state.
